@@ -18,9 +18,7 @@ pub mod syntax {
     use vstd::prelude::*;
     use crate::*;
     verus! {
-    /// A useful token (not blank, comment or line break) of the text still in front of the cursor, with the number of
-    /// line breaks between the previous useful token and this one.
-    pub ghost struct UTok { pub tok: Token, pub lbs: nat }
+    //@@INCLUDE _shared/token_stream.rs
     /// Opaque stand-in for the token walker.  ASSUMED model (the walker scans a &str; outside Verus' reach): in front
     /// of the cursor lies a finite stream of useful tokens; at the end of the text the walker answers with a
     /// LineBreak pseudo token, so a line break is always seen there and no other kind ever matches.
@@ -28,6 +26,8 @@ pub mod syntax {
     pub struct Walker<'src> { _p: &'src str }
     impl<'src> Walker<'src> {
         pub uninterp spec fn stream(&self) -> Seq<UTok>;
+        /// the walker's own invariant (cursor inside the text on a character boundary; defined in U-walker)
+        pub uninterp spec fn inv(&self) -> bool;
         /// the text the walker was made from (never changes)
         pub uninterp spec fn src(&self) -> Seq<char>;
         /// the zero-width span at the cursor (where "expected ..." diagnostics point)
@@ -35,15 +35,6 @@ pub mod syntax {
     }
     /// the text a span covers
     pub uninterp spec fn text_at(src: Seq<char>, span: diagn::Span) -> Seq<char>;
-    pub open spec fn hd_is(ws: Seq<UTok>, k: TokenKind) -> bool { ws.len() > 0 && ws[0].tok.kind == k }
-    pub open spec fn hd_lb(ws: Seq<UTok>) -> bool { ws.len() == 0 || ws[0].lbs > 0 }
-    pub open spec fn tl(ws: Seq<UTok>) -> Seq<UTok> { ws.drop_first() }
-    /// one line break in front of the next useful token consumed
-    pub open spec fn dec_lb(ws: Seq<UTok>) -> Seq<UTok> {
-        if ws.len() > 0 && ws[0].lbs > 0 { ws.update(0, UTok { tok: ws[0].tok, lbs: (ws[0].lbs - 1) as nat }) } else { ws }
-    }
-    /// kinds the walker skips: never the kind of a useful token
-    pub open spec fn ignorable(k: TokenKind) -> bool { k is Whitespace || k is Comment || k is LineBreak }
     /// what the literal scanners make of a token's text (U-literal proves excerpt_as_bigint; uninterpreted here)
     pub uninterp spec fn number_of(span: diagn::Span, text: Seq<char>) -> Option<util::BigInt>;
     pub uninterp spec fn string_of(span: diagn::Span, text: Seq<char>) -> Option<Seq<char>>;
